@@ -44,6 +44,11 @@ func main() {
 	case "probe":
 		ch := mon.Lookup(os.Args[2])
 		os.Exit(core.ProbeMain(ch, os.Args[3], os.Args[4]))
+	case "coldstart":
+		// coldstart <ID> <k>: the very first library calls of a process, from 16 goroutines at once
+		ch := mon.Lookup(os.Args[2])
+		k, _ := strconv.Atoi(os.Args[3])
+		os.Exit(core.ColdStart(ch, k))
 	case "c05work":
 		os.Exit(mon.C05Work(os.Args[2]))
 	case "c05oneshot":
